@@ -233,3 +233,163 @@ Section Audit.
     - reflexivity.
   Qed.
 End Audit.
+
+(* ================= the rows of a completed walk: a forest in pre-order ================= *)
+Definition safe_row (r : row) : Prop := r_safe r = true.
+
+(* the rows one level yields: each tree is its root row, then the rows below it (one level deeper); a root that is
+   fully safe has only fully safe rows below it *)
+Inductive wforest : nat -> list row -> Prop :=
+| wf_nil L : wforest L []
+| wf_tree L r kids rest : r_level r = L -> wforest (S L) kids -> (r_safe r = true -> Forall safe_row kids) ->
+    wforest L rest -> wforest L (r :: kids ++ rest).
+
+Lemma wforest_app L a : wforest L a -> forall b, wforest L b -> wforest L (a ++ b).
+Proof.
+  induction 1 as [L|L r kids rest Hl Hk IHk Hs Hr IHr]; intros b Hb; [exact Hb|].
+  cbn [app]. rewrite <- app_assoc. apply wf_tree; auto.
+Qed.
+
+Definition WOK (L : nat) (st : stream) : Prop := snd st = None /\ wforest L (fst st).
+
+Lemma WOK_app L a b : WOK L a -> WOK L b -> WOK L (s_app a b).
+Proof.
+  intros [Ha1 Ha2] [Hb1 Hb2]. unfold s_app. rewrite Ha1. split; [exact Hb1|]. cbn [fst]. apply wforest_app; assumption.
+Qed.
+Lemma WOK_concat {A} L (g : A -> stream) l : (forall x, In x l -> WOK L (g x)) -> WOK L (s_concat g l).
+Proof.
+  induction l as [|x l IH]; intros H; [split; [reflexivity|constructor]|]. cbn [s_concat fold_right].
+  apply WOK_app; [apply H; left; reflexivity|apply IH; intros y Hy; apply H; right; exact Hy].
+Qed.
+Lemma safe_app a b : Forall safe_row (fst a) -> Forall safe_row (fst b) -> Forall safe_row (fst (s_app a b)).
+Proof.
+  intros Ha Hb. unfold s_app. destruct (snd a); [exact Ha|]. cbn [fst]. apply Forall_app. split; assumption.
+Qed.
+Lemma safe_concat {A} (g : A -> stream) l : (forall x, In x l -> Forall safe_row (fst (g x))) -> Forall safe_row (fst (s_concat g l)).
+Proof.
+  induction l as [|x l IH]; intros H; [constructor|]. cbn [s_concat fold_right].
+  apply safe_app; [apply H; left; reflexivity|apply IH; intros y Hy; apply H; right; exact Hy].
+Qed.
+
+Section WalkTotal.
+  Variable E : env.
+  Variable T : trust.
+  Variable skipped : list pstr.
+  Variable R : node.
+  Hypothesis ND : NoDup (ids R).
+  Hypothesis Hnice : forall h subs, sub (Node h subs) R -> nice h subs = true.
+  Hypothesis Hskip : mem (s "_general.SliceNode") skipped = true.
+
+  Lemma node_format_ok h subs : nice h subs = true -> exists val, node_format h = Ok val.
+  Proof.
+    intros H. destruct (nice_hstr _ _ H) as [c [m [Hc Hm]]]. unfold node_format.
+    destruct (h_kind h) eqn:K; try (rewrite Hc, Hm; cbn [jfmt]; eauto); eauto.
+    destruct (nice_json _ _ H K) as [_ [t ->]]. cbn [jfmt]. eauto.
+  Qed.
+
+  Lemma slice_skipped h subs : nice h subs = true -> h_kind h = KSlice -> is_skipped E skipped h = true.
+  Proof. intros H K. unfold is_skipped. rewrite (nice_slice _ _ H K), Hskip. reflexivity. Qed.
+
+  (* a node whose audit is empty: so is the audit of each child, as the audit of the node computes it *)
+  Lemma node_clean k h subs f p : sub (Node h subs) R -> fits R k (Node h subs) -> (k <= f)%nat -> harmless R p (Node h subs) ->
+    h_kind h <> KSlice -> unsafe_g E T R f p (Node h subs) = Ok [] ->
+    forall c, In c subs -> exists f', f = S f' /\ unsafe_g E T R f' (push_path h p) c = Ok [].
+  Proof.
+    intros Hs Hf Hle Hp Hk Hu c Hc. pose proof (Hnice h subs Hs) as Hn.
+    destruct k as [|k]; [destruct Hf|]. destruct f as [|f]; [lia|]. exists f. split; [reflexivity|].
+    cbn [unsafe_g] in Hu. destruct (ukind_of (h_kind h)) eqn:U.
+    - destruct (nothing_kinds _ U) as [K|K]; [|congruence]. destruct (nice_json _ _ Hn K) as [-> _]. destruct Hc.
+    - destruct (nice_fn _ _ Hn U) as [_ ->]. destruct Hc.
+    - rewrite (Hp h subs (reach_refl _ _)) in Hu. destruct (own_unsafe E T h) as [own|]; [|discriminate Hu]. cbn [bind] in Hu.
+      destruct (concat_res _) as [rest|] eqn:C; [|discriminate Hu]. cbn [bind] in Hu. injection Hu as Hu.
+      apply app_eq_nil in Hu. destruct Hu as [_ ->]. apply concat_res_nil in C. rewrite Forall_forall in C.
+      apply C. apply in_map. exact Hc.
+  Qed.
+
+  Lemma walk_ok : forall k n, sub n R -> fits R k n -> leaf_plain n = true -> (k <= unsafe_fuel)%nat ->
+    forall fuel path name level last, (k <= fuel)%nat -> harmless R path n ->
+      WOK level (walk E T skipped R fuel path name level last n)
+      /\ (forall f p, (k <= f)%nat -> harmless R p n -> unsafe_g E T R f p n = Ok [] ->
+            Forall safe_row (fst (walk E T skipped R fuel path name level last n))).
+  Proof.
+    induction k as [|k IH]; intros n Hs Hf Hl Hku fuel path name level last Hle Hp; [destruct Hf|].
+    destruct fuel as [|fuel]; [lia|]. pose proof Hf as Hf0. destruct n as [h subs|sl i|sl l]; cbn [fits] in Hf.
+    - (* a node *)
+      pose proof (Hnice h subs Hs) as Hn.
+      destruct (node_format_ok _ _ Hn) as [val NF]. destruct (self_safe_ok E T h subs Hn) as [ss SS].
+      assert (U : exists u, (match h_kind h with KJson => Ok [] | _ => unsafe E T R (Node h subs) end) = Ok u
+                            /\ (u = [] -> h_kind h = KJson \/ unsafe_g E T R unsafe_fuel [] (Node h subs) = Ok [])).
+      { destruct (unsafe_total E T R Hnice (S k) (Node h subs) Hs Hf0 eq_refl unsafe_fuel [] Hku) as [u Hu].
+        destruct (kind_eqb (h_kind h) KJson) eqn:KJ.
+        - assert (K : h_kind h = KJson) by (destruct (h_kind h); try discriminate KJ; reflexivity). rewrite K. exists []. auto.
+        - exists u. split; [unfold unsafe; rewrite Hu; destruct (h_kind h); try reflexivity; discriminate KJ|].
+          intros ->. right. exact Hu. }
+      destruct U as [u [HU Hu0]].
+      cbn [walk]. rewrite NF. cbn [s_lift]. rewrite SS. cbn [s_lift]. rewrite HU. cbn [s_lift].
+      set (g := fun p : node * bool => walk E T skipped R fuel (push_path h path) (slot_key (node_slot (fst p))) (S level) (snd p) (fst p)).
+      (* descending into (a sublist of) the children *)
+      assert (Hdesc : h_kind h <> KSlice -> forall subs', incl subs' subs ->
+                WOK (S level) (if twice_on_path h path then s_err ERecursion else s_concat g (combine subs' (last_flags subs')))
+                /\ (forall f p, (S k <= f)%nat -> harmless R p (Node h subs) -> unsafe_g E T R f p (Node h subs) = Ok [] ->
+                      Forall safe_row (fst (if twice_on_path h path then s_err ERecursion else s_concat g (combine subs' (last_flags subs')))))).
+      { intros Hk subs' Hincl. rewrite (harmless_not_twice R path h subs Hp).
+        pose proof (nice_unskipped _ _ Hn Hk) as Hlp. rewrite forallb_forall in Hlp. rewrite Forall_forall in Hf.
+        assert (Hch : forall pr, In pr (combine subs' (last_flags subs')) -> In (fst pr) subs).
+        { intros [c b] Hpr. apply Hincl. eapply in_combine_l; eauto. }
+        split.
+        - apply WOK_concat. intros pr Hpr. pose proof (Hch pr Hpr) as Hc. unfold g.
+          apply (IH (fst pr)); [eapply sub_child; eauto|apply Hf; exact Hc|apply Hlp; exact Hc|lia|lia|eapply harmless_push; eauto].
+        - intros f p Hfk Hpp Hu. apply safe_concat. intros pr Hpr. pose proof (Hch pr Hpr) as Hc. unfold g.
+          destruct (node_clean (S k) h subs f p Hs Hf0 Hfk Hpp Hk Hu (fst pr) Hc) as [f' [-> Hcu]].
+          eapply (IH (fst pr)); [eapply sub_child; eauto|apply Hf; exact Hc|apply Hlp; exact Hc|lia|lia|eapply harmless_push; eauto| | |exact Hcu];
+            [lia|eapply harmless_push; eauto]. }
+      match goal with |- WOK level (s_cons ?r ?KIDS) /\ _ => set (r0 := r); set (kids := KIDS) end.
+      assert (HK : WOK (S level) kids
+                   /\ (forall f p, (S k <= f)%nat -> harmless R p (Node h subs) -> unsafe_g E T R f p (Node h subs) = Ok [] ->
+                         Forall safe_row (fst kids))).
+      { unfold kids. destruct (is_skipped E skipped h) eqn:SK; [split; [split; [reflexivity|constructor]|intros; constructor]|].
+        assert (Hk : h_kind h <> KSlice) by (intros K; rewrite (slice_skipped _ _ Hn K) in SK; discriminate SK).
+        specialize (Hdesc Hk).
+        destruct (h_kind h) eqn:K; try exact (Hdesc subs (incl_refl _)).
+        (* a DictNode: its key_types child may be hidden *)
+        destruct subs as [|kt rest]; [exfalso; eapply nice_dict; eauto; rewrite K; reflexivity|].
+        assert (Hrest : incl rest (kt :: rest)) by (intros x Hx; right; exact Hx).
+        match goal with |- context [match ?kt0 with Node hk _ => _ | _ => _ end] => set (kt' := kt0) end.
+        assert (Hkt' : forall hk sk, kt' = Node hk sk -> exists uk, unsafe E T R kt' = Ok uk).
+        { intros hk sk Ekt. rewrite Forall_forall in Hf. pose proof (Hf kt (or_introl eq_refl)) as Hfk.
+          assert (Hskt : sub kt R) by (eapply sub_child; [exact Hs|left; reflexivity]).
+          unfold kt' in *. destruct kt as [hk0 sk0|slk idk|slk lk].
+          - apply (unsafe_total E T R Hnice k); [exact Hskt|exact Hfk|reflexivity|lia].
+          - destruct k as [|k']; [destruct Hfk|]. cbn [fits] in Hfk. destruct Hfk as [t [Ht Hft]]. rewrite Ht in *.
+            apply (unsafe_total E T R Hnice k'); [eapply find_id_sub; eauto|exact Hft|rewrite Ekt; reflexivity|lia].
+          - discriminate Ekt. }
+        destruct kt' as [hk sk|slk idk|slk lk] eqn:Ekt; try exact (Hdesc (kt :: rest) (incl_refl _)).
+        destruct (h_kind hk); try exact (Hdesc (kt :: rest) (incl_refl _)).
+        destruct (Hkt' hk sk eq_refl) as [uk ->]. cbn [s_lift].
+        destruct uk; [exact (Hdesc rest Hrest)|exact (Hdesc (kt :: rest) (incl_refl _))]. }
+      destruct HK as [[HK1 HK2] HK3].
+      assert (Hsafe : forall f p, (S k <= f)%nat -> harmless R p (Node h subs) -> unsafe_g E T R f p (Node h subs) = Ok [] -> r_safe r0 = true).
+      { intros f p Hfk Hpp Hu. unfold r0. cbn [r_safe].
+        destruct (kind_eqb (h_kind h) KJson) eqn:KJ.
+        - assert (K : h_kind h = KJson) by (destruct (h_kind h); try discriminate KJ; reflexivity). rewrite K in HU. injection HU as <-. reflexivity.
+        - assert (HU' : unsafe E T R (Node h subs) = Ok u) by (destruct (h_kind h); try exact HU; discriminate KJ).
+          unfold unsafe in HU'. rewrite (unsafe_indep E T R ND (S k) (Node h subs) Hs Hf0 unsafe_fuel f [] p Hku Hfk (harmless_nil R _) Hpp) in HU'.
+          rewrite Hu in HU'. injection HU' as <-. reflexivity. }
+      split.
+      + split; [exact HK1|]. cbn [s_cons fst]. rewrite <- (app_nil_r (fst kids)). apply wf_tree; [reflexivity|exact HK2| |constructor].
+        intros Hr. unfold r0 in Hr. cbn [r_safe] in Hr. assert (u = []) by (destruct u; [reflexivity|discriminate Hr]). subst u.
+        destruct (Hu0 eq_refl) as [K|Hu1].
+        * destruct (nice_json _ _ Hn K) as [-> _]. unfold kids. destruct (is_skipped E skipped h); [constructor|].
+          rewrite K. rewrite (harmless_not_twice R path h [] Hp). constructor.
+        * apply (HK3 unsafe_fuel []); [exact Hku|apply harmless_nil|exact Hu1].
+      + intros f p Hfk Hpp Hu. cbn [s_cons fst]. constructor; [exact (Hsafe f p Hfk Hpp Hu)|exact (HK3 f p Hfk Hpp Hu)].
+    - (* a reference: the memoised node, at the same level *)
+      destruct Hf as [t [Ht Hft]]. cbn [walk]. rewrite Ht.
+      assert (Hlt : leaf_plain t = true) by (destruct (find_id_hid _ _ _ Ht) as [hd [subs [-> _]]]; reflexivity).
+      destruct (IH t (find_id_sub _ _ _ Ht) Hft Hlt ltac:(lia) fuel path name level last ltac:(lia) (harmless_ref R sl i t path Ht Hp)) as [H1 H2].
+      split; [exact H1|]. intros f p Hfk Hpp Hu. destruct f as [|f]; [lia|]. cbn [unsafe_g] in Hu. rewrite Ht in Hu.
+      apply (H2 f p); [lia|eapply harmless_ref; eauto|exact Hu].
+    - (* a leaf that is not raw JSON yields nothing *)
+      destruct l; try discriminate Hl; cbn [walk]; (split; [split; [reflexivity|constructor]|intros; constructor]).
+  Qed.
+End WalkTotal.
